@@ -134,7 +134,18 @@ class CoroutineProcessor(Processor):
         if state != CoroutineState.TERMINATED:
             raise ValueError('Cannot start the same generator twice')
 
-        self._active_queue.append(generator)
+        if generator in self._kill_queue:
+            # A kill is pending, the generator is still in one of the
+            # queues. Revoke the kill instead of queueing it twice
+            self._kill_queue.discard(generator)
+            waiting_gen = self._generators[generator]
+            if waiting_gen is not None:     # Was paused, resume it
+                self._wait_queue = [w for w in self._wait_queue
+                                    if w is not waiting_gen]
+                heapq.heapify(self._wait_queue)
+                self._active_queue.append(generator)
+        else:
+            self._active_queue.append(generator)
         self._generators[generator] = None
         promise = CoroutinePromise(generator, self)
         self._promises[generator] = promise
